@@ -32,6 +32,21 @@ CLAIMS = {
             "same valid UTF-8 input through both twins; byte twin on ill-formed input against the reference", "5 C12"),
 }
 
+CLAIMS.update({
+    "C05": ("runtime monitoring + sanitizers: AddressSanitizer build of the whole corpus workload, Miri on corpus shards and the API driver, Source::read model, offline join of observation logs default vs forbid_unsafe",
+            "exactly sized heap blocks under ASan/Miri, read() model over all lengths 0..=40 and offsets, cross-build observation join, panics reported", "5 C05, 2.3"),
+    "C06": ("runtime monitoring: offline join of observation logs (results, spans, callback invocations) tail-call vs state-machine builds + stack-address probe + long inputs",
+            "same cases in both code generators must hash identically; stack probe spread must be 0 up to 10^6 skips / 4 MB tokens", "5 C06"),
+    "C13": ("runtime monitoring: exactly-once / ordering monitor over callback invocation logs recorded in Extras + documented-table oracle replayed on the reference segmentation",
+            "every supported callback return type, labelled/inline, with bump, with custom error types and error callbacks, 4 configs", "5 C13"),
+    "C14": ("runtime monitoring: model-based monitor over random public-API histories (next/bump/clone/morph/spanned/accessors), also under Miri and ASan",
+            "accessors predicted after every step; clone race; heap-owning extras", "5 C14"),
+    "C15": ("runtime monitoring + sanitizers: bump outcome model and span-invariant assertion before slicing, debug/release x default/forbid_unsafe, Miri (--release) and ASan",
+            "all n classes incl. wrap-around, use after caught panic", "5 C15"),
+    "C20": ("runtime monitoring: online trace checker over the read-trace hook (monotone offsets, attempt start, read-count bound) on corpus and adversarial workloads",
+            "per-attempt monotonicity and 4*(examined+2)+16 bound; maximal observed ratio reported", "5 C20"),
+})
+
 PENDING = {}
 
 
